@@ -1,5 +1,5 @@
 """C10 Resource limits hold against hostile input - structural clauses."""
-from .. import frontend as F, ast as A, cfg as C, util as U, guards as G
+from .. import inline as I, frontend as F, ast as A, cfg as C, util as U, guards as G
 
 EXPLANATION = ('Decides per-site necessary conditions of the resource limits: (R10.1) every container-open emission '
                '(visitor.begin_array/begin_object) in a decoder is dominated - in the same function or at every call site of it - by an '
@@ -441,10 +441,13 @@ def r10_7(chk, tier):
         for f in facts.functions:
             if f.get('body') is None or f.get('dep') or not f.get('cls'): continue
             classes.setdefault(f['cls'], {}).setdefault(f['n'], []).append(f)
+        def not_interface(callee, call):
+            # helpers a begin/end function was split into; never another visitor entry point
+            return not callee['n'].startswith('visit_') and callee['n'] not in ('end_value', 'begin_value')
         def counters(fns, op):
             out = set()
             for f in fns:
-                for x in A.walk_no_lambda(f['body']):
+                for x in (y for b in I.closure_bodies(facts, f, allow=not_interface) for y in A.walk_no_lambda(b)):
                     if x.get('k') == 'UnaryOperator' and x.get('op') == op:
                         s2 = A.strip(x.get('sub'), casts=True)
                         if s2 is not None and s2.get('k') == 'MemberExpr' and ('depth' in s2.get('n', '') or 'level' in s2.get('n', '')): out.add(s2['n'])
@@ -470,7 +473,7 @@ def r10_7(chk, tier):
                         site = U.site(f, '%s balance' % ctr)
                         if ctr not in incs:
                             chk.fail('R10.7', site, f['file'], f['l'], '%s::%s decrements %s but %s never increments it' % (short, e, ctr, b), None, f['q']); continue
-                        g = C.CFG(f['body'])
+                        g = C.CFG(I.expand(facts, f, allow=not_interface)['body'])
                         dec_nodes = []; err_nodes = []
                         for nd in g.rpo:
                             if nd.kind not in ('stmt', 'cond', 'return') or not isinstance(nd.ast, dict): continue
